@@ -154,7 +154,7 @@ theorem exprs_case (cfg : ScanCfg R) (c pre e post : List Nat)
     (items : List (Item R))
     (hs : Qentem.Expr.parseTop ({ readNum := cfg.readNum } : ScanCfg R) (e ++ [34]) 0 e.length = .ok items) :
     ∃ items', exprs cfg c [] (pre.length + 10) (pre.length + 10 + e.length) = .ok items' ∧
-      Qentem.Expr.RelItems (pre.length + 10) (e.length + 1) items items' := by
+      Qentem.Expr.RelItems Qentem.Expr.NoV (pre.length + 10) (e.length + 1) items items' := by
   have hrel := reloc_case c pre e post hc
   have hno : ∀ (i x : Nat), (e ++ [34])[i]? = some x → x ≠ Qentem.Expr.cBOpen := by
     intro i x hx
@@ -756,7 +756,7 @@ theorem case_hit (cx : RCtx R) (cfg : ScanCfg R) (hrn : cfg.readNum = cx.readNum
         ({ content := cx.content, lookup := lk, readNum := cx.readNum } : Env R) (pre.length + 10) :=
       fun lk => ⟨rfl, hreloc.slice⟩
     have hlen : (specEnvT cx e 34).content.length = e.length + 1 := by simp [specEnvT]
-    have hev := fun lk => Qentem.Expr.evaluateTop_reloc (hre lk) true items0 items' (by rw [hlen]; exact hrel)
+    have hev := fun lk => Qentem.Expr.evaluateTop_reloc (hre lk) (Qentem.Expr.relLookup_noV _ _) true items0 items' (by rw [hlen]; exact hrel)
     refine ⟨Qentem.Expr.evaluateTop (specEnvT cx e 34) true items0, ?_, ?_⟩
     · simp only [evalExprs, ← hemp, h, Bool.false_eq_true, if_false, hvars, resolveVars, bind, Except.bind,
         (hev _).1]
